@@ -97,6 +97,29 @@ func (c *comp) Bind(core.Aggregator, core.GunDeps) error {
 }
 func (c *comp) Shoot(core.Ammo) {}
 
+// compX (round 6, `impl=x`): an implementation type that ALSO implements other interfaces — error, fmt.Stringer,
+// io.Closer — next to the plugin interface (Serial, and Bind / Shoot of core.Gun, promoted from the embedded *comp).
+// Whatever the registry does with a constructor's results, it must not mistake the COMPONENT for the error result.
+type compX struct{ *comp }
+
+func (c *compX) Error() string  { return "component-not-an-error" }
+func (c *compX) String() string { return "compX" }
+func (c *compX) Close() error   { return nil }
+
+// asComp: the instrumented component behind a product (nil inside = a typed nil product)
+func asComp(p interface{}) (*comp, bool) {
+	switch v := p.(type) {
+	case *comp:
+		return v, true
+	case *compX:
+		if v == nil {
+			return nil, true
+		}
+		return v.comp, true
+	}
+	return nil, false
+}
+
 // Other is a struct that is no config of anything and implements nothing
 type Other struct{ X int }
 
@@ -128,6 +151,7 @@ var (
 	ifaceT = reflect.TypeOf((*Iface)(nil)).Elem()
 	gunT   = reflect.TypeOf((*core.Gun)(nil)).Elem()
 	implT  = reflect.TypeOf(&comp{})
+	implXT = reflect.TypeOf(&compX{})
 	errT   = reflect.TypeOf((*error)(nil)).Elem()
 )
 
@@ -160,6 +184,7 @@ type world struct {
 	yield               bool         // conc path: user code yields the processor
 	ext                 extDef       // round 4: registered defaults of the structured options (over.go)
 	ux                  [4]string    // round 4: the user's settings of the structured options
+	rich                bool         // round 6 (impl=x): the implementation type also implements error / Stringer / Closer
 	foreignFill         bool         // nest path: an error that is none of this world's is the decoder's (a nested creation failed)
 	onEndStep           func()
 	decodeFails         int
@@ -278,12 +303,18 @@ func (w *world) constructor() interface{} {
 		in = []reflect.Type{pconfT}
 	}
 	prodT := implT
+	if w.rich {
+		prodT = implXT
+	}
 	if sh.iface {
 		prodT = w.plugT
 	}
 	prodOut := func(c *comp) reflect.Value {
 		if c == nil {
 			return reflect.Zero(prodT)
+		}
+		if w.rich {
+			return reflect.ValueOf(&compX{c}).Convert(prodT)
 		}
 		return reflect.ValueOf(c).Convert(prodT)
 	}
@@ -396,7 +427,7 @@ func (w *world) resOf(p interface{}, err error) string {
 		}
 		return "err.other:" + drv.Clean(err.Error())
 	}
-	c, ok := p.(*comp)
+	c, ok := asComp(p)
 	if p == nil || (ok && c == nil) {
 		return "nil" // neither a component nor an error
 	}
@@ -1301,6 +1332,14 @@ func c18GenRounds(r *rand.Rand, tier string, rounds int) []string {
 					}
 				}
 			}
+		}
+	}
+	// round 6: a third of the direct / hook / history / hookconf cases with an implementation type that ALSO implements
+	// error, fmt.Stringer and io.Closer (`impl=x`): the observation must be the same
+	for i, c := range out {
+		if (strings.HasPrefix(c, "sh=") || strings.HasPrefix(c, "via=hook ") || strings.HasPrefix(c, "hist=1") ||
+			strings.HasPrefix(c, "via=hookconf ")) && r.Intn(3) == 0 {
+			out[i] = c + " impl=x"
 		}
 	}
 	// the same creations side by side on ONE registry, concurrently
